@@ -2,7 +2,7 @@
    Only statements, each closed by `exact <lemma>`, with Print Assumptions beneath. *)
 From Coq Require Import List NArith Bool.
 From Common Require Import Lock.
-From Conc Require Import Lin LockedObject.
+From Conc Require Import Lin Cert LockedObject.
 From C34 Require Import Model ModelTrace ModelConc Gen Checker Proofs ProofsHeap ProofsTrace ProofsConc ProofsTop.
 Import ListNotations.
 Local Open Scope N_scope.
@@ -106,13 +106,20 @@ Print Assumptions C34_no_two_in_bodies.
 (* ---- the checker run on recorded histories of the real queue *)
 Theorem C34_lin_check_sound : forall bud h,
   pq_lin bud h = Some true -> linearizable (fspec qspec op res q_step) [] h.
-Proof. intros bud h. apply lin_check_m_true. exact res_eqb_spec. Qed.
+Proof. exact pq_lin_sound. Qed.
 Print Assumptions C34_lin_check_sound.
 
 Theorem C34_lin_check_complete : forall bud h,
   pq_lin_complete bud h = Some false -> ~ linearizable (fspec qspec op res q_step) [] h.
-Proof. intros bud h. apply lin_check_b_false. exact res_eqb_spec. Qed.
+Proof. exact pq_lin_complete_false. Qed.
 Print Assumptions C34_lin_check_complete.
+
+(* a linearization found by the driver's own (untrusted) search is accepted only through the
+   certificate check: positions of the records in linearization order *)
+Theorem C34_lin_cert_sound : forall h p,
+  pq_cert h p = true -> linearizable (fspec qspec op res q_step) [] h.
+Proof. exact pq_cert_sound. Qed.
+Print Assumptions C34_lin_cert_sound.
 
 (* ---- the pinned source before the fix: Exists took no lock.  A reachable configuration has
    one thread about to write the txs map (inside Push, holding the mutex) while another is
@@ -121,7 +128,7 @@ Theorem C34_exists_unlocked_refuted :
   exists c : cfg pq loc op res,
     reach pq loc op res q_init q_fin q_mstep prefix_mode (init_cfg pq loc op res m_new push_and_exists) c /\
     at_loc c 0 writes_map = true /\ at_loc c 1 reads_map = true.
-Proof. exists race_cfg. exact exists_races_with_push. Qed.
+Proof. exact exists_unlocked_refuted. Qed.
 Print Assumptions C34_exists_unlocked_refuted.
 
 (* non-vacuity: priority first, FIFO among equals, duplicates refused, removal *)
